@@ -28,6 +28,7 @@
 
 #include <openssl/bn.h>
 #include <openssl/crypto.h>
+#include <openssl/err.h>
 
 #include "aws_readkeys.h"
 #include "aws_sign.h"
@@ -825,7 +826,7 @@ main(int argc, char ** argv)
 	aw_strdup_hook = strdup_hook;
 	aw_enable(1);
 	while (fgets(line, sizeof(line), f) != NULL) {
-		if (strncmp(line, "prog", 4) == 0) { vt_reset(); unsetenv("TZ"); tzset(); continue; }	/* (programs do not inherit process state) */
+		if (strncmp(line, "prog", 4) == 0) { vt_reset(); unsetenv("TZ"); tzset(); ERR_clear_error(); continue; }	/* (programs do not inherit process state) */
 		if (strncmp(line, "hash ", 5) == 0) do_hash(line);
 		else if (strncmp(line, "hashbig ", 8) == 0) do_hashbig(line);
 		else if (strncmp(line, "hmac ", 5) == 0) do_hmac(line);
